@@ -8,7 +8,7 @@ from pvmon.props.common import suite_cases, run_suite_case, rng_for, run_pipeflo
 MANIFEST = {'text': 'Held on every returned pipeflow of the seeded workload: nodal and global mass balances rebuilt from the user tables are at round-off (1e-16..1e-13 kg/s observed) for all component kinds, label schemes and solver configurations exercised; exploration is the honest level because the quantifier ranges over all networks.', 'note': "Trusts the monitor's own incidence reconstruction (pi valves insert a virtual node) and the 1e-10 relative bound; nets the generator does not produce are not covered.", 'technique': 'runtime monitoring: conservation oracle over result tables after every real pipeflow on generated networks'}
 
 RULE = ("seeded random gas/water networks (tree + chords, parallel branches, ju/pi valves, pumps, compressors, "
-        "flow/pressure controllers, heat exchangers, storages, several ext grids, islands, out-of-service "
+        "flow/pressure controllers, heat exchangers, storages, several ext grids, circulation-pump loops with make-up ext grids and leaks, islands, out-of-service "
         "elements, five index-label schemes) built through the public create_* API and solved by the real "
         "pipeflow under a random solver configuration (numba on/off, 3 friction models, constant alpha 1/0.3/0.7 "
         "or automatic damping, default or tight tolerances); a case is non-trivial when the run returned and at "
@@ -22,7 +22,7 @@ CONFIG = {
 }
 REQUIRED_COUNTERS = ["balances_junction_deg>=3", "balances_virtual_pi_valve_node", "global_balances",
                      "runs_gas", "runs_liquid", "runs_numba", "runs_numpy", "runs_alpha_lt_1",
-                     "runs_automatic"]
+                     "runs_automatic", "runs_circulation_pump_loop", "runs_ext_grid_in_pump_loop"]
 
 FEATURE_SETS = [
     (), ("valves",), ("valves", "pi_valves", "closed"), ("pump", "compressor", "valves"),
@@ -42,6 +42,8 @@ def gen_cases(tier, seed):
         cases.append({"seed": seed, "i": i, "fluid": FLUIDS[i % len(FLUIDS)],
                       "features": list(FEATURE_SETS[(i // len(FLUIDS)) % len(FEATURE_SETS)]),
                       "labels": LABELS[(i // 7) % len(LABELS)], "n": None})
+        if i % 6 == 5:
+            cases.append({"seed": seed, "i": 2 * 10 ** 6 + i, "loop": True, "fluid": "water", "features": [], "labels": LABELS[(i // 6) % len(LABELS)], "n": None})
     for k in range(cfg.get("large", 0)):
         cases.append({"seed": seed, "i": 10 ** 6 + k, "fluid": FLUIDS[k % len(FLUIDS)],
                       "features": ["valves", "mass_storage", "multi_grid"], "labels": LABELS[k % len(LABELS)],
@@ -54,6 +56,25 @@ def gen_cases(tier, seed):
 
 def make(case):
     rng = rng_for("C01", case["seed"], case["i"])
+    if case.get("loop"):
+        # district-heating loop: the circulation pump is a branch AND a pressure-fixing element; optionally an ext grid
+        # holds the pressure / makes up water at the pump's flow junction or elsewhere, and a sink draws water from the loop
+        spec = netgen.gen_heating(rng, source=str(rng.choice(["cpp", "cpm"])), modes=["MF_DT", "MF_TR", "QE_MF"], max_sections=3)
+        pump = [e for e in spec["elements"] if e["kind"].startswith("circ_pump")][0]
+        r = rng.random()
+        if r < 0.7:
+            at = pump["flow_junction"] if rng.random() < 0.6 else str(rng.choice([j["name"] for j in spec["junctions"]]))
+            spec["elements"].append({"kind": "ext_grid", "name": "makeup", "junction": at, "p_bar": pump["p_flow_bar"] if at == pump["flow_junction"] else 4.0,
+                                     "t_k": 330.0, "type": "p", "in_service": True})
+            if rng.random() < 0.5 and at == pump["flow_junction"]:
+                spec["elements"].append({"kind": "ext_grid", "name": "makeup2", "junction": at, "p_bar": pump["p_flow_bar"], "t_k": 330.0, "type": "p", "in_service": True})
+            if rng.random() < 0.7:
+                spec["elements"].append({"kind": "sink", "name": "leak", "junction": str(rng.choice([j["name"] for j in spec["junctions"]])),
+                                         "mdot_kg_per_s": float(rng.uniform(0.01, 0.3)), "scaling": 1.0, "in_service": True})
+        netgen.relabel(spec, rng, case["labels"])
+        opts = solver_configs(rng, False)
+        opts["mode"] = str(rng.choice(["hydraulics", "sequential"]))
+        return spec, opts
     spec = netgen.gen_hydraulic(rng, fluid=case["fluid"], n=case["n"], features=case["features"],
                                 label_scheme=case["labels"])
     if rng.random() < 0.5:
@@ -85,6 +106,10 @@ def run_case(case, ctx):
             obs.count("runs_automatic")
         obs.count("runs_friction_" + opts["friction_model"])
         obs.count("runs_labels_" + case["labels"])
+        if case.get("loop"):
+            obs.count("runs_circulation_pump_loop")
+            if any(e["name"] == "makeup" for e in spec["elements"]):
+                obs.count("runs_ext_grid_in_pump_loop")
         if len(net.junction) >= 300:
             obs.count("runs_large_net")
         rec["nontrivial"] = obs.counters.get("balances_junction_deg>=3", 0) > 0 and \
